@@ -298,7 +298,7 @@ def check_C01(run):
         if db.get("good") != "1":
             nv += 1
             if nv <= 25:
-                run.violation("theorem-premise", "inv_b (good_pos_b plus the enemy-side conditions: the position-level hypothesis of C02_every_generated_move_refines / "
+                run.violation("theorem-premise", "invs_b (good_pos_b, the enemy-side conditions and at most 16 men a side: the position-level hypothesis of C02_every_generated_move_refines / "
                               "C04_every_generated_move_keeps_the_key / C02_invariant_is_kept) is false on a position of D", {"fen": fen, "model": b[-200:]}, found_input=False)
         for c in cl:
             run.cov["classes"]["feature:" + c] = run.cov["classes"].get("feature:" + c, 0) + 1
@@ -517,7 +517,7 @@ def check_C02(run):
             if db.get("good") != "1":
                 nv += 1
                 if nv <= 25:
-                    run.violation("theorem-premise", "inv_b (the hypothesis of C02_every_generated_move_refines and C02_invariant_is_kept) is false on a position of D",
+                    run.violation("theorem-premise", "invs_b (the hypothesis of C02_every_generated_move_refines and C02_invariant_is_kept) is false on a position of D",
                                   {"fen": e["fen"], "model": b[-200:]}, found_input=False)
             if db.get("prem") != "1":
                 nv += 1
@@ -634,7 +634,7 @@ def check_C04(run):
             if db.get("good") != "1":
                 nv += 1
                 if nv <= 25:
-                    run.violation("theorem-premise", "inv_b (the hypothesis of C04_every_generated_move_keeps_the_key and C04_key_invariant_along_every_sequence) is false on a position of D",
+                    run.violation("theorem-premise", "invs_b (the hypothesis of C04_every_generated_move_keeps_the_key and C04_key_invariant_along_every_sequence) is false on a position of D",
                                   {"fen": e["fen"], "model": b[-200:]}, found_input=False)
             if db.get("kprem") != "1":
                 nv += 1
